@@ -97,15 +97,17 @@ PROPS["C05"] = {
     "explanation": "crash model",
 }
 PROPS["C04"] = {
-    "proof_files": ["Proofs/Crash.v", "Proofs/Dispatch.v", "Proofs/Geometry.v"],
+    "proof_files": ["Proofs/Crash.v", "Proofs/Dispatch.v", "Proofs/Geometry.v", "Proofs/Resume.v", "Proofs/ResumeFile.v"],
     "gen_files": ["Gen/Geometry.v"],
-    "corr": ["C05", "C17"],
-    "trusted_base": ["tie to the code: CORRESPONDENCE - the crash model (as in C05) and the dispatch model (as in C17) are validated against the code; every kill-point snapshot of real runs is resumed from with the real endpoints, up to 3 interruptions deep, and the final tree compared with the source"],
-    "assumptions": ["the data file is not edited from outside between runs", "liveness of the resumed run is tested (watchdog), not proved"],
-    "level_text": "Safety of resume is proved as a composition (metadata honest along any chain of kills and restarts; the sender skips only what the loaded plan marks present below the verification point; chunk geometry tiles the file); that the resumed run actually succeeds is exercised on every kill-point snapshot of real runs, chains included.",
-    "level_note": "Trusted: Coq kernel, harness. PARTIAL: the second run's success (liveness) is tested, not proved; the receiver's main loop is not yet modelled in Coq (see C01).",
-    "technique": "Coq composition of crash-model and dispatch-model theorems + resume-from-every-kill-point enumeration on real runs",
-    "explanation": "composition",
+    "corr": ["C05", "C17", "C06"],
+    "trusted_base": ["tie to the code: CORRESPONDENCE - the crash model (as in C05), the dispatch model (as in C17) and the resume handshake model Model/Resume.v (as in C06: returned fields, chunks sent, the re-sent chunk and the final file bytes of resumed real transfers are compared with the model) are validated against the code; every kill-point snapshot of real runs is resumed from with the real endpoints, up to 3 interruptions deep, and the final tree compared with the source",
+                     "tie to the code: TRANSLATOR - the chunk-count and chunk-length expressions of Model/Resume.v are Gen/Geometry.v, regenerated on every run"],
+    "assumptions": ["the data file is not edited from outside between runs", "liveness of the resumed run is tested (watchdog), not proved",
+                    "C04_resumed_file_identical: [o_file] is the data file once every frame the sender emitted has been written (the receiver writes every frame of a file that is still open: C06_repair_applied_partial; frames are written at index * chunk size: C19)"],
+    "level_text": "Safety of resume is proved: metadata is honest along any chain of kills and restarts (crash model); with honest metadata the resumed run of a file - stale-data test, Truncate, load-or-create, the resume report, the sender's plan and verification, its main pass, the positional writes - leaves exactly the source's bytes, for every size, chunk size, bitmap, verification tail and hash function (byte-level handshake model over the generated geometry); the sender's dispatch hands out exactly the chunks the plan does not skip. That the resumed run actually succeeds is exercised on every kill-point snapshot of real runs, chains included.",
+    "level_note": "Trusted: Coq kernel, harness, gotrans (geometry). PARTIAL: the second run's success (liveness) is tested, not proved (C03 proves it for the closed protocol model); the step from the crash model's abstract 'chunk i is in the file' to the byte-level 'chunk_at file i = chunk_at src i' is definitional, the two models are validated separately.",
+    "technique": "Coq: crash-model invariant over kill/restart chains + byte-level theorem that a resumed file equals the source under honest metadata (list extensionality over positional writes, generated geometry) + dispatch-model theorem; resume-from-every-kill-point enumeration on real runs",
+    "explanation": "composition; file-level identity theorem",
 }
 
 NOT_APPLICABLE = {}
